@@ -22,7 +22,76 @@ pub(crate) struct Arena {
 	/// Current allocation offset (atomically incremented)
 	n: AtomicU64,
 	/// Pre-allocated buffer
-	pub(crate) buf: Box<[u8]>,
+	pub(crate) buf: ArenaBuf,
+}
+
+#[cfg(not(feature = "verif"))]
+pub(crate) type ArenaBuf = Box<[u8]>;
+
+/// With the verification hooks on, the buffer is allocated with the alignment the
+/// nodes placed in it need, declared to the allocator (the default build relies on
+/// the system allocator's over-alignment of a byte buffer; an interpreter that checks
+/// declared alignments cannot run the skip list otherwise).
+#[cfg(feature = "verif")]
+pub(crate) struct ArenaBuf {
+	ptr: *mut u8,
+	len: usize,
+}
+
+#[cfg(feature = "verif")]
+impl ArenaBuf {
+	const ALIGN: usize = 8;
+
+	fn zeroed(len: usize) -> Self {
+		if len == 0 {
+			return Self {
+				ptr: std::ptr::NonNull::<u64>::dangling().as_ptr() as *mut u8,
+				len,
+			};
+		}
+		let layout = std::alloc::Layout::from_size_align(len, Self::ALIGN).expect("arena layout");
+		// Safety: the layout has a non-zero size
+		let ptr = unsafe { std::alloc::alloc_zeroed(layout) };
+		if ptr.is_null() {
+			std::alloc::handle_alloc_error(layout);
+		}
+		Self {
+			ptr,
+			len,
+		}
+	}
+
+	#[inline]
+	pub(crate) fn as_ptr(&self) -> *const u8 {
+		self.ptr
+	}
+
+	#[inline]
+	pub(crate) fn len(&self) -> usize {
+		self.len
+	}
+}
+
+#[cfg(feature = "verif")]
+impl std::ops::Deref for ArenaBuf {
+	type Target = [u8];
+
+	#[inline]
+	fn deref(&self) -> &[u8] {
+		// Safety: `ptr` is valid for `len` bytes for as long as `self` lives
+		unsafe { std::slice::from_raw_parts(self.ptr, self.len) }
+	}
+}
+
+#[cfg(feature = "verif")]
+impl Drop for ArenaBuf {
+	fn drop(&mut self) {
+		if self.len != 0 {
+			let layout = std::alloc::Layout::from_size_align(self.len, Self::ALIGN).expect("arena layout");
+			// Safety: allocated in `zeroed` with this layout
+			unsafe { std::alloc::dealloc(self.ptr, layout) };
+		}
+	}
 }
 
 // Safety: Arena uses atomic operations for all mutations
@@ -32,7 +101,10 @@ unsafe impl Sync for Arena {}
 impl Arena {
 	pub(crate) fn new(capacity: usize) -> Self {
 		let capacity = capacity.min(MAX_ARENA_SIZE);
+		#[cfg(not(feature = "verif"))]
 		let buf = vec![0u8; capacity].into_boxed_slice();
+		#[cfg(feature = "verif")]
+		let buf = ArenaBuf::zeroed(capacity);
 
 		Self {
 			// Start at 1 to reserve offset 0 as "null"
@@ -86,7 +158,15 @@ impl Arena {
 		if offset == 0 {
 			return &[];
 		}
-		&self.buf[offset as usize..(offset + size) as usize]
+		#[cfg(not(feature = "verif"))]
+		return &self.buf[offset as usize..(offset + size) as usize];
+		// Same range, without forming a reference to the whole buffer first.
+		#[cfg(feature = "verif")]
+		{
+			assert!(offset as usize + size as usize <= self.buf.len());
+			// Safety: in bounds (checked above), and the buffer lives as long as `self`
+			unsafe { std::slice::from_raw_parts(self.buf.as_ptr().add(offset as usize), size as usize) }
+		}
 	}
 
 	/// Get a mutable byte slice from the arena by offset.
